@@ -62,6 +62,10 @@ CHECKS = {
    text="Every type x payload length round-trips exactly; truncated frames are rejected, frames with trailing bytes are never read as another message, nothing panics; for all request sequences up to length 3 (4 thorough) over known and unknown types the reply type matches and the Instance call log equals the requested steps once and in order (terminate: reply, then SIGTERM); a child dropped at 7 points never prevents a later full hand-over; malformed frames never trigger a step nor alter later valid frames.",
    note="Trusted: lock-step driver (the protocol is a synchronous RPC on a stream socket); SIGTERM replaced by a recorded call. The two-process smoke test with the real binary is not built.",
    ref="DESIGN.md section 4 C17"),
+ "C16": dict(level="exploration", technique="server-side set fold vs dependency fold at quiescence over the real subscription client with a scripted stream factory (failures, slow sends); progress-relative deadline + stack-dump stuck detector for calls; retry observation; plain and -race children (scope config/discovery.go)",
+   text="PRNG Subscribe/Unsubscribe histories (more changes than the queue holds while no stream can be established, Sub/Unsub/Sub bursts, slow server batching, scripted factory/send/recv failures): every call returns (else two stack dumps decide deadlock), a stream is re-created after every failure, and once the last call returned the set subscribed on the live stream (subscribe lists minus unsubscribe lists of that stream) equals the dependency set within the deadline.",
+   note="Assumes the server applies a message's subscribe list before its unsubscribe list. The real-gRPC path (config.New with a dynamic source) is not built; the client under test is the real svcDiscoveryClient through the verif constructor.",
+   ref="DESIGN.md section 4 C16"),
 }
 NOT_BUILT = "check not built yet in this session (design in DESIGN.md section 4)"
 
